@@ -273,27 +273,38 @@ def run_cases(ctx, module, fn, cases, nproc=None, chunk=None, env=None, deadline
         p = subprocess.Popen([PY, "-c", boot], stdin=subprocess.PIPE, stdout=subprocess.PIPE,
                              stderr=subprocess.DEVNULL, env=e, text=True, bufsize=1 << 16)
         procs.append(p)
-        try:
-            B = chunk or 200
-            for s in range(0, len(idx_list), B):
-                if deadline and time.time() > deadline:
-                    break
-                part = idx_list[s:s + B]
-                p.stdin.write("".join(json.dumps(cases[i], ensure_ascii=True) + "\n" for i in part))
-                p.stdin.flush()
-                for i in part:
-                    line = p.stdout.readline()
-                    if not line:
-                        raise Machinery("worker died (case %r)" % (cases[i],))
-                    results[i] = json.loads(line)
-            p.stdin.write("QUIT\n")
-            p.stdin.flush()
-        finally:
+
+        def feed():
+            # a separate feeder: writing and reading from one thread can deadlock once both pipes are full
             try:
-                p.stdin.close()
-            except Exception:
+                B = chunk or 200
+                for s0 in range(0, len(idx_list), B):
+                    p.stdin.write("".join(json.dumps(cases[i], ensure_ascii=True) + "\n" for i in idx_list[s0:s0 + B]))
+                    p.stdin.flush()
+                p.stdin.write("QUIT\n")
+                p.stdin.flush()
+            except (BrokenPipeError, ValueError, OSError):
                 pass
-            p.wait(timeout=60)
+            finally:
+                try:
+                    p.stdin.close()
+                except Exception:
+                    pass
+
+        ft = threading.Thread(target=feed, daemon=True)
+        ft.start()
+        try:
+            for i in idx_list:
+                line = p.stdout.readline()
+                if not line:
+                    raise Machinery("worker died (case %r)" % (cases[i],))
+                results[i] = json.loads(line)
+        finally:
+            ft.join(timeout=30)
+            try:
+                p.wait(timeout=60)
+            except Exception:
+                p.kill()
 
     errs = []
 
